@@ -143,6 +143,11 @@ func (X *Exec) applyCallsites(fr *Frame, st *State, cc *ssa.CallCommon, how stri
 			vars[fmt.Sprintf("arg%d", k)] = a
 		}
 		vars["viago"] = &Val{T: X.E.TS.Bool(how == "go"), GT: types.Typ[types.Bool]}
+		if !cc.IsInvoke() && cc.StaticCallee() == nil {
+			if _, isB := cc.Value.(*ssa.Builtin); !isB {
+				vars["callee"] = X.val(fr, cc.Value) // the function value of a dynamic call
+			}
+		}
 		for _, c := range cs.Requires {
 			t := X.evalClause(fr, st, c, vars)
 			X.oblige(st, "callsite", c.Label, fmt.Sprintf("at call %s: %s", cs.Pattern, c.Src), pos, t)
@@ -153,11 +158,19 @@ func (X *Exec) applyCallsites(fr *Frame, st *State, cc *ssa.CallCommon, how stri
 				panic("update of undeclared ghost " + u.Name)
 			}
 			sc := X.clauseCtx(fr, st, vars, "update "+u.Name)
-			v := sc.eval(u.Expr)
-			X.setHeap(st, "GH|"+u.Name, srt, v.T)
+			X.setHeap(st, "GH|"+u.Name, srt, sc.evalGhost(u.Expr, srt))
 		}
 		if cs.Snapshot {
 			st.Snap = st.Clone()
+		}
+		if cs.MayPanic && how != "go" {
+			// the panic path: the state as it is before the call, with a fresh non-nil panic value
+			ps := st.Clone()
+			pv := X.E.TS.Fresh("panicval", SIface)
+			ps.assume(X.E.TS, X.E.TS.Not(X.E.TS.Eq(pv, X.E.IfaceNil())))
+			X.setHeap(ps, "GH|~panicval", SIface, pv)
+			X.setHeap(ps, "GH|~panicked", SBool, X.E.TS.True())
+			fr.PanicStates = append(fr.PanicStates, ps)
 		}
 		if cs.Skip {
 			skip = true
@@ -368,10 +381,10 @@ func (X *Exec) execCallWith(fr *Frame, ins ssa.Instruction, cc *ssa.CallCommon, 
 			}
 			sc := X.clauseCtx(fr, st, rv, "updateafter "+u.Name)
 			sc.Pre = before
-			X.setHeap(st, "GH|"+u.Name, srt, sc.eval(u.Expr).T)
+			X.setHeap(st, "GH|"+u.Name, srt, sc.evalGhost(u.Expr, srt))
 		}
 		for _, a := range assumes {
-			sc := X.clauseCtx(fr, st, nil, fmt.Sprintf("%s:%d", a.File, a.Line))
+			sc := X.clauseCtx(fr, st, rv, fmt.Sprintf("%s:%d", a.File, a.Line))
 			sc.Pre = before
 			st.assume(X.E.TS, sc.EvalBool(a.Expr))
 			X.CallsiteAssumptions[fmt.Sprintf("%s: after %s: %s", X.E.P.Keys[fr.Fn], srcName(cc.Value), a.Src)]++
